@@ -1,34 +1,34 @@
-"""Table of checks: property id -> harness stages, evidence level, rule text, assumptions."""
+"""Table of checks: property id -> harness stages, evidence level, rule text, assumptions.
 
-SEQ_ASSUME = [
-    "sim backend (ECDSA P-256 over the state encoding) as the only wallet/channel backend",
-    "operations are offered from the finite alphabet listed in DESIGN.md section 3; versions are capped (cap in coverage.notes), the search runs to a fixpoint below the cap",
-    "canonical state = (phase, current state bytes, adopted-by-progression flag, staged state bytes, per-slot signature validity); prevTXs and logger are write-only and dropped",
-]
+One JSON file per property under engine/checks.d/<ID>.json with the keys
+  level        evidence level category (model_checking | exploration | fault_enumeration | ...)
+  engine       SEQ | FAULT | SCHED | ENUM
+  technique    a few words naming the deciding method
+  claim        MANIFEST level_claimed.text
+  note         MANIFEST level_note (assumptions / what is not covered)
+  rule         evidence coverage.rule (how cases are enumerated, what counts as distinct / non-trivial)
+  assumptions  list of strings for the evidence file
+  stages       list of {harness, mode: plain|sched, sharding: single|shards|units, env, budget_s:{quick,thorough},
+               nshards:{quick,thorough}, memlimit_kb, tier (run only in that tier), workers}
+"""
+import glob, json, os
+
+_D = os.path.join(os.path.dirname(os.path.abspath(__file__)), "checks.d")
+CHECKS = {}
+for _f in sorted(glob.glob(os.path.join(_D, "C*.json"))):
+    CHECKS[os.path.basename(_f)[:-5]] = json.load(open(_f))
 
 ENGINES = [
-    {"name": "SEQ", "path": "harness/machine, harness/store", "serves_properties": ["C01", "C09", "C11"], "kind_free_text": "explicit-state BFS to a fixpoint over a real sequential object, each transition executed on the implementation and on a Go reference model"},
+    {"name": "SEQ", "path": "harness/machine, harness/store", "serves_properties": ["C01", "C09", "C11"],
+     "kind_free_text": "explicit-state BFS to a fixpoint over a real sequential object, each transition executed on the implementation and on a Go reference model"},
+    {"name": "FAULT", "path": "harness/store", "serves_properties": ["C10"],
+     "kind_free_text": "SEQ plus enumeration of every write/batch boundary of every transition as a crash point, restore compared with before/after"},
+    {"name": "SCHED", "path": "engine/instrument, engine/vsched, engine/vsync, harness/relay, harness/multi, harness/watcher, harness/clients",
+     "serves_properties": ["C03", "C04", "C05", "C06", "C07", "C08", "C12", "C18", "C20"],
+     "kind_free_text": "stateless DFS over all schedules of the real concurrent code up to a preemption/delay bound, under a cooperative scheduler in a testing/synctest bubble; sources instrumented at build time through go's -overlay"},
+    {"name": "ENUM", "path": "harness/trans, harness/values, harness/codec, harness/decode", "serves_properties": ["C02", "C13", "C14", "C15", "C16", "C17", "C19"],
+     "kind_free_text": "bounded-exhaustive enumeration of structurally generated inputs (all shapes up to small dimensions, all single/pair mutations, all truncations/cuts) against an independent oracle"},
 ]
 
+# Properties without a registered check, with the reason (kept current by hand).
 NOT_APPLICABLE = {}
-
-CHECKS = {
-    "C01": {
-        "level": "model_checking", "engine": "SEQ",
-        "technique": "explicit-state model checking (BFS to fixpoint) of the real state machine, invariant checked in every state",
-        "claim": "Every canonical state of the real channel.StateMachine reachable through the 49-operation alphabet (all phase setters, init/update/forced update, own signature, add-signature with valid/sibling-state/current-state/foreign/garbage/empty signatures at every index, enable, discard) below the version cap satisfies: the current transaction is signed by every participant over exactly the current state unless adopted from a progression event, and every stored staging signature verifies over exactly the staged state. Fixpoint, so operation sequences of every length within the alphabet are covered.",
-        "note": "Trusted: sim backend signature scheme, the harness' canonical-state abstraction (argued in DESIGN.md C01/K). Not covered: versions above the cap, apps other than NoApp/payment, more than 3 participants.",
-        "rule": "BFS to a fixpoint over canonical states of the real channel.StateMachine; evaluations = transitions executed on the real machine (every one also stepped on the reference automaton and checked for the full-signature invariant); distinct_nontrivial = distinct canonical states discovered (each reached by at least one state-changing operation, re-validated by replay of its history on a fresh machine)",
-        "assumptions": SEQ_ASSUME,
-        "stages": [{"harness": "machine"}],
-    },
-    "C09": {
-        "level": "model_checking", "engine": "SEQ",
-        "technique": "explicit-state model checking (BFS to fixpoint) of the real state machine against a reference automaton, every transition compared",
-        "claim": "For every reachable canonical state and every operation of the alphabet the real call succeeds exactly when the documented precondition (phase, signatures present, final flag, validity class of the argument) holds, ends in the documented phase with the documented staged/current effect, and a call that returns an error leaves phase, staged and current transaction byte-identical. Own signatures only in signing phases and only over the staged state.",
-        "note": "The reference automaton is a hand transcription of the doc comments of machine.go/statemachine.go, independent of validPhaseTransitions. Not covered: ActionMachine, versions above the cap.",
-        "rule": "BFS to a fixpoint over canonical states of the real channel.StateMachine; evaluations = transitions executed on the real machine and compared with the reference automaton transcribed from the documentation (accept/refuse, post-phase, staged/current effect, byte-identical snapshot after a refused call); distinct_nontrivial = distinct canonical states discovered",
-        "assumptions": SEQ_ASSUME,
-        "stages": [{"harness": "machine"}],
-    },
-}
